@@ -68,3 +68,19 @@ Proof.
   apply cap_runt; [cbn; lia|]. apply cap_msg; [split; [cbn; lia|reflexivity]|]. apply cap_runt; [cbn; lia|].
   apply cap_msg; [split; [cbn; lia|reflexivity]|]. apply cap_nil.
 Qed.
+
+(** ... and packets that are cut short (a header at least, the size field announcing at least the bytes present) are
+    delivered whole, so that a capture ending inside a message decodes like the bytes it carries (depleted, not a
+    clean end) *)
+Theorem C15_capture_with_cut_packets_delivers_every_carried_byte :
+  forall ps bs, capture_cut ps bs -> pcap_bytes ps = bs.
+Proof. exact capture_with_cut_packets_delivers_every_carried_byte. Qed.
+Print Assumptions C15_capture_with_cut_packets_delivers_every_carried_byte.
+
+Example C15_cut_capture_example :
+  capture_cut [[128;1;0;0;0;12;0;0;1;123;0;4]; [128;1;0;0;0;16;0;0;0;0;0]]
+              ([128;1;0;0;0;12;0;0;1;123;0;4] ++ [128;1;0;0;0;16;0;0;0;0;0] ++ []).
+Proof.
+  apply (cc_msg [128;1;0;0;0;12;0;0;1;123;0;4] []); [split; [cbn; lia|reflexivity]|].
+  apply cc_cut; [split; [cbn; lia|cbn; lia]|]. apply cc_nil.
+Qed.
